@@ -585,3 +585,44 @@ def safe_judge(fn):
             R.corr_break("implementation output can be interpreted by the harness (shape/type as documented)", fn.__module__ + "." + fn.__name__,
                          inp, "harness exception while judging: " + repr(e), tb)
     return w
+
+
+# ------------------------------------------------------------------------------------------------
+# argument-encoding robustness: results must not depend on how a valid argument is encoded or on earlier calls
+class Buffers:
+    """persistent argument buffers of one worker batch: a later case with the same shape and dtype is written INTO the array
+    object used by the earlier case (in-place overwrite), so `same object, new contents` sequences occur naturally when
+    rule objects are reused as well"""
+
+    def __init__(self):
+        self.bufs = {}
+
+    def get(self, name, arr):
+        import numpy as np
+        arr = np.asarray(arr)
+        key = (name, arr.shape, str(arr.dtype), bool(arr.flags["C_CONTIGUOUS"]), bool(arr.flags["F_CONTIGUOUS"]))
+        b = self.bufs.get(key)
+        if b is None:
+            b = np.array(arr, order="K") if (arr.flags["C_CONTIGUOUS"] or arr.flags["F_CONTIGUOUS"]) else arr
+            self.bufs[key] = b
+            return b
+        b[...] = arr
+        return b
+
+
+def nonliteral(s):
+    """an equal but not interned copy of a string argument (as it would arrive from json, argv, a config file)"""
+    return "".join(list(s)) if isinstance(s, str) else s
+
+
+INT_DTYPES = ["int64", "int64", "int32", "int16", "int8", "uint8", "uint16"]
+
+
+def pick_int_dtype(rng, maxval):
+    """a valid integer dtype for values 0..maxval (small dtypes only when the values fit)"""
+    import numpy as np
+    for _ in range(8):
+        d = rng.choice(INT_DTYPES)
+        if maxval <= np.iinfo(d).max:
+            return d
+    return "int64"
